@@ -40,6 +40,7 @@ CLASSES = {"MathExpression", "UnaryExpression", "NegateExpression", "FactorialEx
 FUNCTIONS = [
     ("tokenizer.py", "Tokenizer", "is_alpha", "Tokenizer_is_alpha", [("c", "char")], "bool"),
     ("tokenizer.py", "Tokenizer", "is_number", "Tokenizer_is_number", [("c", "char")], "bool"),
+    ("util.py", None, "get_term_ex", "get_term_ex", [("node", "node")], "term"),
     ("expressions.py", "BinaryExpression", "get_priority", "BinaryExpression_get_priority", [("self", "node")], "int"),
     ("expressions.py", "BinaryExpression", "self_parens", "BinaryExpression_self_parens", [("self", "node")], "bool"),
     ("expressions.py", None, "_is_compact_product", "is_compact_product", [("node", "node")], "bool"),
@@ -83,8 +84,7 @@ SELF_CALLS = {
     ("BalancedMoveRule", "has_add_siblings"): ("BalancedMoveRule_has_add_siblings", "bool"),
 }
 # externals: functions of util.py that are NOT translated (hand-written model, see Model/PyRt.lean)
-EXTERNALS = {"get_term_ex": ("Ref.get_term_ex", ["node"], "term"),
-             "factor_add_terms_ex": ("pyFactorAddTermsEx", ["term", "term"], "factres")}
+EXTERNALS = {"factor_add_terms_ex": ("pyFactorAddTermsEx", ["term", "term"], "factres")}
 TYPED_ATTRS = {
     ("term", "variable"): ("termVar", "optchar"), ("term", "exponent"): ("termExp", "num"),
     ("term", "coefficient"): ("termCoef", "num"),
@@ -156,6 +156,8 @@ class FnTranslator:
                 return f"(Ref.{e.attr} {base})", "node"
             if e.attr == "value":
                 return f"(Ref.value {base})", "num"
+            if e.attr == "identifier":
+                return f"(Ref.identifier {base})", "optchar"
             raise Untranslatable(f"attribute .{e.attr}")
         if isinstance(e, ast.UnaryOp) and isinstance(e.op, ast.Not):
             return f"(!{self.truth(e.operand)})", "bool"
@@ -277,6 +279,18 @@ class FnTranslator:
                 return f"(isinstance {obj[0]} [" + ", ".join(f".{n}" for n in names) + "])", "bool"
             if f.id == "cast":
                 return self.expr(e.args[1])
+            if f.id == "TermEx" and len(e.args) == 3 and not e.keywords:
+                def opt(arg, want):
+                    c, ty = self.expr(arg)
+                    if ty == "none":
+                        return "none"
+                    if want == "num" and ty == "int":
+                        return f"(some (({c} : Int) : Rat))"
+                    if ty == want:
+                        return c
+                    raise Untranslatable(f"TermEx argument of type {ty}")
+                return ("(some (TermEx.mk " + opt(e.args[0], "num") + " " + opt(e.args[1], "optchar") + " "
+                        + opt(e.args[2], "num") + "))"), "term"
             if f.id == "bool":
                 return self.truth(e.args[0]), "bool"
             if f.id in EXTERNALS:
@@ -343,6 +357,11 @@ class FnTranslator:
                 return "none"
             if ty == "tuple:str,node,node":
                 return f"(some {c})"
+        if r == "term":
+            if ty == "none":
+                return "none"
+            if ty == "term":
+                return c
         if r == "opt3t":
             if ty == "none":
                 return "none"
@@ -482,7 +501,7 @@ class FnTranslator:
 
 
 RET_LEAN = {"bool": "Bool", "int": "Int", "optstr": "Option String", "opt3": "Option (String × Ref × Ref)",
-            "opt3t": "Option (String × Option TermEx × Option TermEx)"}
+            "opt3t": "Option (String × Option TermEx × Option TermEx)", "term": "Option TermEx"}
 TY_LEAN = {"node": "Ref", "bool": "Bool", "char": "Char"}
 
 
